@@ -255,6 +255,29 @@ fn corpus_type<T: RngCore + SeedableRng + Jumps>(name: &str, seed_len: usize, bl
             }
         });
     }
+    // seeding from a source RNG: a dense script, and scripts that start with z all-zero blocks of one
+    // seed's length (a redraw loop written as recursion is a loop only in optimised builds)
+    for z in [0usize, 1, 2, 3, 1000, 65536, 400_000] {
+        if z > 3 && name != "XorShiftRng" {
+            continue;
+        }
+        item(out, format!("{}/from_rng/zero-blocks-{}", name, z), |fx| {
+            let mut script = vec![0u8; z * seed_len];
+            script.extend(filler(vseed, 0x1F + z as u64, 4 * seed_len.max(16)));
+            let mut src = ByteSource { script, pos: 0 };
+            let mut g = T::from_rng(&mut src);
+            fx.u64(src.pos as u64);
+            for _ in 0..4 {
+                fx.u64(g.next_u64());
+            }
+            let mut src2 = ByteSource { script: filler(vseed, 0x2F + z as u64, 8 * seed_len.max(16)), pos: 0 };
+            let g2 = T::try_from_rng(&mut src2);
+            if let Ok(mut g2) = g2 {
+                fx.u64(g2.next_u64());
+            }
+            fx.u64(src2.pos as u64);
+        });
+    }
     // block counters: 2^16 + 4 blocks from one object (array-based generators)
     if block_words > 0 {
         // (256-word blocks: 2^18 of them, so that a carry out of the 32-bit block counter arithmetic of
@@ -402,6 +425,52 @@ fn benign_delta(i: usize) -> i64 {
     900 + ((i * i * 31 + i * 7) % 211) as i64 * 3 + (i % 5) as i64 * 57
 }
 
+/// A source RNG that delivers a byte script (then a deterministic filler).
+struct ByteSource {
+    script: Vec<u8>,
+    pos: usize,
+}
+impl ByteSource {
+    fn byte(&mut self) -> u8 {
+        let b = if self.pos < self.script.len() { self.script[self.pos] } else { 0xA5 ^ (self.pos as u8) };
+        self.pos += 1;
+        b
+    }
+}
+impl RngCore for ByteSource {
+    fn next_u32(&mut self) -> u32 {
+        let mut b = [0u8; 4];
+        self.fill_bytes(&mut b);
+        u32::from_le_bytes(b)
+    }
+    fn next_u64(&mut self) -> u64 {
+        let mut b = [0u8; 8];
+        self.fill_bytes(&mut b);
+        u64::from_le_bytes(b)
+    }
+    fn fill_bytes(&mut self, dest: &mut [u8]) {
+        for d in dest.iter_mut() {
+            *d = self.byte();
+        }
+    }
+}
+
+/// deltas for probes 100..400 whose variation sum (with delta_99 := 0) is exactly `s`
+fn deltas_for_sum(s: u64) -> Vec<i64> {
+    let b: u64 = if s < 10 { 1 } else { 7 };
+    let rest = s.saturating_sub(b);
+    let q = rest / 299;
+    let extra = (rest % 299) as usize;
+    let mut d: i64 = b as i64;
+    let mut out = vec![d];
+    for i in 0..299 {
+        let v = (q + if i < extra { 1 } else { 0 }) as i64;
+        d = if d - v >= 1 { d - v } else { d + v };
+        out.push(d);
+    }
+    out
+}
+
 fn tt_script(diffs: &dyn Fn(usize) -> i64) -> Vec<u64> {
     let mut r = vec![(1u64 << 50) - 1000];
     for i in 0..400 {
@@ -537,6 +606,22 @@ fn corpus_jitter(depth: usize, vseed: u64, out: &mut Vec<String>) {
                 let r = g.test_timer();
                 fx.bytes(format!("{:?}", r).as_bytes());
                 fx.u64(s.pos.load(Ordering::Relaxed) as u64);
+            });
+        }
+    }
+    // exact variation sums around every boundary of the rounds estimate (means 1..17 and their edges)
+    for mean in 1u64..=17 {
+        for r in [0u64, 1, 150, 299] {
+            let sum = 300 * mean + r;
+            item(out, format!("Jitter/test_timer/sum={}", sum), |fx| {
+                let ds = deltas_for_sum(sum);
+                let (mut g, s) = jitter(tt_script(&|i| if i < 100 { 1000 + ((i * i * 7 + i * 13) % 89) as i64 * 3 + (i % 3) as i64 * 211 } else { ds[i - 100] }));
+                let r = g.test_timer();
+                fx.bytes(format!("{:?}", r).as_bytes());
+                fx.u64(s.pos.load(Ordering::Relaxed) as u64);
+                if let Ok(r) = r {
+                    g.set_rounds(r);
+                }
             });
         }
     }
